@@ -247,6 +247,37 @@ func checkNode(ss moss.Snapshot, c *Concr, want Content, paths []string, p strin
 			it2.Close()
 		}
 	}
+	// jumps: one iterator sought from every live key to every other one, each position read
+	// with Current() and nothing in between (forward and backward seeks between entries that
+	// may both be unresolved Merge entries; state cached by Current() must not survive a seek)
+	if len(wantKeys) >= 2 && len(wantKeys) <= 4 {
+		it3, err := ss.StartIterator(nil, nil, moss.IteratorOptions{})
+		if err == nil && it3 != nil {
+			rd := func(i int, how string) {
+				serr := it3.SeekTo(wantKeys[i])
+				k, v, cerr := it3.Current()
+				if serr != nil || cerr != nil || !bytes.Equal(k, wantKeys[i]) || !sameBytes(v, wantVals[i]) {
+					out = append(out, Mismatch{What: what + ".seek", Path: p, Got: fmt.Sprintf("%s: %q=%s err=%v/%v", how, short(k), show(v), serr, cerr),
+						Want: fmt.Sprintf("%q=%s", short(wantKeys[i]), show(wantVals[i]))})
+				}
+			}
+		jumps:
+			for i := range wantKeys {
+				for j := range wantKeys {
+					if i == j {
+						continue
+					}
+					n0 := len(out)
+					rd(i, "SeekTo")
+					rd(j, fmt.Sprintf("SeekTo after Current() at %q", short(wantKeys[i])))
+					if len(out) > n0 {
+						break jumps
+					}
+				}
+			}
+			it3.Close()
+		}
+	}
 	// children
 	names, err := ss.ChildCollectionNames()
 	if err != nil {
